@@ -46,7 +46,7 @@ fn parse_base(data: &[u8]) -> IResult<&[u8], LongRangeAisBroadcastMessage> {
         let (data, longitude) = map(
             |data| signed_i32(data, 18),
             |lon| {
-                parse_longitude(lon).map(|val| {
+                parse_longitude_min_10(lon).map(|val| {
                     if message_type == 27 {
                         val * 1000.0
                     } else {
@@ -59,7 +59,7 @@ fn parse_base(data: &[u8]) -> IResult<&[u8], LongRangeAisBroadcastMessage> {
         let (data, latitude) = map(
             |data| signed_i32(data, 17),
             |lat| {
-                parse_latitude(lat).map(|val| {
+                parse_latitude_min_10(lat).map(|val| {
                     if message_type == 27 {
                         val * 1000.0
                     } else {
@@ -93,6 +93,22 @@ fn parse_base(data: &[u8]) -> IResult<&[u8], LongRangeAisBroadcastMessage> {
 }
 
 /// Parse the speed over ground for Long Range AIS Broadcast Message (type 27)
+/// Longitude in 1/10 minutes; 181 degrees (108600) means 'not available'
+fn parse_longitude_min_10(data: i32) -> Option<f32> {
+    match data {
+        108_600 => None,
+        _ => Some(data as f32 / 600_000.0),
+    }
+}
+
+/// Latitude in 1/10 minutes; 91 degrees (54600) means 'not available'
+fn parse_latitude_min_10(data: i32) -> Option<f32> {
+    match data {
+        54_600 => None,
+        _ => Some(data as f32 / 600_000.0),
+    }
+}
+
 fn parse_speed_over_ground_62(data: u16) -> Option<f32> {
     match data {
         63 => None,             // Speed not available
